@@ -77,6 +77,23 @@ func tryFastCompound
   ensures flat-chain: result != nil ==> (result.op == "AND" || result.op == "OR")
   loop 1 invariant forall(i, 0, len(compares), fcOK(compares[i]))
 
+// the compiled condition carries the general program of the condition text itself, and at most one shortcut derived from that
+// same text: the flat chain when there is one, else the single comparison; what Evaluate requires of a shortcut holds
+func NewExprCondition
+  props C12 C05 C17 C06 C13
+  option assumed_frame
+  observe prog := Compile
+  observe chain := tryFastCompound
+  observe single := tryFastCompare
+  before Compile the-general-program-is-compiled-from-the-condition-text-itself: $arg0 == expression
+  before tryFastCompound the-chain-shortcut-is-derived-from-the-same-text: $arg0 == expression
+  before tryFastCompare the-single-shortcut-is-derived-from-the-same-text: $arg0 == expression
+  atreturn a-condition-carries-its-own-program: result1 == nil ==> hasType(result0, *ExprCondition) && fresh(unbox(result0, *ExprCondition)) && unbox(result0, *ExprCondition).program == $prog
+  atreturn the-chain-shortcut-wins-and-the-single-one-is-tried-only-without-it: result1 == nil ==> ite($chain != nil, unbox(result0, *ExprCondition).compound == $chain && unbox(result0, *ExprCondition).fast == nil, unbox(result0, *ExprCondition).compound == nil && unbox(result0, *ExprCondition).fast == $single)
+  atreturn what-evaluate-requires-of-a-shortcut-holds: result1 == nil ==> (unbox(result0, *ExprCondition).fast != nil ==> fcOK(unbox(result0, *ExprCondition).fast)) && (unbox(result0, *ExprCondition).compound != nil ==> forall(i, 0, len(unbox(result0, *ExprCondition).compound.parts), fcOK(unbox(result0, *ExprCondition).compound.parts[i])))
+  ensures never-a-condition-together-with-an-error: result1 != nil ==> result0 == nil
+  ensures a-compiled-condition-is-returned: result1 == nil ==> result0 != nil
+
 func (*ExprCondition).Evaluate
   props C12 C05 C17 C06 C13
   requires ec.fast != nil ==> fcOK(ec.fast)
